@@ -158,8 +158,6 @@ class Shape:
             s, e = p, p + len(b)
             p = e
             if e <= lo or s >= hi or not b:
-                if not b and lo <= s <= hi and s < hi + 1 and t and s >= lo and e <= hi and (s > lo or lo == 0) and False:
-                    toks.append(t)
                 continue
             a, z = max(s, lo), min(e, hi)
             if t.startswith("D") and t[1:].isdigit():
@@ -246,6 +244,9 @@ BEHS = ["", "f=r0", "f=r3", "f=no", "f=s1", "f=s1 l=no", "u=2", "u=0", "u=1,all"
         "l=r3", "l=no", "l=s2", "l=r9", "f=r9"]
 
 
+SMALL_BEHS = ["", "u=2", "l=no", "f=no", "u=0"]
+
+
 class Case:
     def __init__(self, name):
         self.name, self.lines, self.bodies, self.tags = name, [], {}, []
@@ -277,7 +278,11 @@ def gen_placement(shape_f, mode, beh, phase_idx, action, after, mid):
         nxt = [b for b in bounds if b > cut]
         if not nxt or nxt[0] - cut < 2:
             return None
+        if sh.small and nxt[0] - cut > 100:
+            return None      # where inside the over-long element the arena is exhausted is not modelled
         cut = cut + (nxt[0] - cut) // 2
+    if sh.small and beh not in SMALL_BEHS:
+        return None          # replies of the application in a 300-byte arena fail for lack of pool space (not modelled)
     cs = Case("pl-%s-%s-p%d%s-%s-%s-%s" % (sh.name, mode, phase_idx, "m" if mid else "", beh.replace(" ", "_").replace("=", "") or "dflt", action, after))
     mem = 300 if sh.small else 8192
     if sh.name == "errhdr-small-arena":
